@@ -1,11 +1,130 @@
 """Translation of real instruction streams (JSON dump of minijinja's `Instructions`, harness op
-"instructions") into the abstract instructions of coq/theories/C05/Model.v (unverified glue)."""
+"instructions") into the abstract instructions of coq/theories/C05/Model.v (unverified glue).
+
+What the VM does when a recursion call returns (`Instruction::PopLoopFrame` on a frame with
+`current_recursion_jump`) is NOT written down here: `vm_return_rule` reads that arm of
+minijinja/src/vm/mod.rs of the tree under test on every run and fails loudly when it does not recognise
+its statements.  The rule decides the `ret_pops` argument of every abstract IPopLoopFrame."""
+import os, re
 
 BIN = {"Add", "Sub", "Mul", "Div", "IntDiv", "Rem", "Pow", "Eq", "Ne", "Gt", "Gte", "Lt", "Lte", "StringConcat", "In"}
 
+LOOP_FLAG_RECURSIVE = 2     # compiler/instructions.rs (checked against the source by vm_return_rule)
 
-def one(ins, const_b):
-    """-> (tag, a, b).  const_b: True if this LoadConst(0) is typed as an empty bundle."""
+
+class TranslatorError(Exception):
+    pass
+
+
+# ----------------------------------------------------------------------------------------
+# the return path of a recursion call, read from vm/mod.rs
+# ----------------------------------------------------------------------------------------
+def _strip_comments(src):
+    src = re.sub(r"//[^\n]*", "", src)
+    return re.sub(r"/\*.*?\*/", "", src, flags=re.S)
+
+
+def _block(src, start):
+    """src[start] == '{' -> index just after the matching '}'"""
+    depth = 0
+    for i in range(start, len(src)):
+        if src[i] == "{":
+            depth += 1
+        elif src[i] == "}":
+            depth -= 1
+            if depth == 0:
+                return i + 1
+    raise TranslatorError("unbalanced braces")
+
+
+_PREV = r"matches!\(state\.instructions\.get\(pc-1\),Some\(Instruction::(\w+)\)\)"
+
+
+def vm_return_rule(repo):
+    """-> {"ops": [...], "pops": [(prev_opcode or None, n)], "pop_after_push": bool, "text": normalised arm}
+    ops in source order: ("pop", cond, n) | ("jump",) | ("end_capture_push",) with cond = opcode the previous
+    instruction must be, or None."""
+    path = os.path.join(repo, "minijinja/src/vm/mod.rs")
+    src = _strip_comments(open(path, encoding="utf8").read())
+    m = re.search(r"Instruction::PopLoopFrame\s*=>\s*\{", src)
+    if not m:
+        raise TranslatorError("no `Instruction::PopLoopFrame => {` arm in vm/mod.rs")
+    arm = src[m.end() - 1:_block(src, m.end() - 1)]
+    t = re.sub(r"\s+", "", arm)
+    head = "{letmutl=state.ctx.pop_frame().current_loop.unwrap();ifletSome((target,end_capture))=l.current_recursion_jump.take(){"
+    if not t.startswith(head) or not t.endswith("continue;}}"):
+        raise TranslatorError("PopLoopFrame arm has an unknown outline: " + t[:200])
+    body = t[len(head):-len("continue;}}")]
+    ops, names = [], {}
+    while body:
+        m = re.match(r"ifpc>0&&" + _PREV + r"\{((?:stack\.pop\(\);)+)\}", body)
+        if m:
+            ops.append(("pop", m.group(1), m.group(2).count("stack.pop();")))
+            body = body[m.end():]
+            continue
+        m = re.match(r"if" + _PREV + r"\{((?:stack\.pop\(\);)+)\}", body)
+        if m:
+            ops.append(("pop", m.group(1), m.group(2).count("stack.pop();")))
+            body = body[m.end():]
+            continue
+        m = re.match(r"let(\w+)=(?:pc>0&&)?" + _PREV + r";", body)
+        if m:
+            names[m.group(1)] = m.group(2)
+            body = body[m.end():]
+            continue
+        m = re.match(r"if(\w+)\{((?:stack\.pop\(\);)+)\}", body)
+        if m and m.group(1) in names:
+            ops.append(("pop", names[m.group(1)], m.group(2).count("stack.pop();")))
+            body = body[m.end():]
+            continue
+        m = re.match(r"stack\.pop\(\);", body)
+        if m:
+            ops.append(("pop", None, 1))
+            body = body[m.end():]
+            continue
+        m = re.match(r"pc=target;", body)
+        if m:
+            ops.append(("jump",))
+            body = body[m.end():]
+            continue
+        m = re.match(r"ifend_capture\{stack\.push\(out\.end_capture\(state\.auto_escape\)\);\}", body)
+        if m:
+            ops.append(("end_capture_push",))
+            body = body[m.end():]
+            continue
+        raise TranslatorError("PopLoopFrame return path: statement not recognised: " + body[:160])
+    if [o[0] for o in ops].count("jump") != 1 or [o[0] for o in ops].count("end_capture_push") != 1:
+        raise TranslatorError("PopLoopFrame return path: expected exactly one `pc = target` and one end_capture push: %r" % (ops,))
+    pushed, after = False, False
+    for o in ops:
+        if o[0] == "end_capture_push":
+            pushed = True
+        elif o[0] == "pop" and pushed:
+            after = True
+    # the flag constant the translation of PushLoop relies on
+    isrc = open(os.path.join(repo, "minijinja/src/compiler/instructions.rs"), encoding="utf8").read()
+    mf = re.search(r"pub const LOOP_FLAG_RECURSIVE: u8 = (\d+);", isrc)
+    if not mf or int(mf.group(1)) != LOOP_FLAG_RECURSIVE:
+        raise TranslatorError("LOOP_FLAG_RECURSIVE is not %d in compiler/instructions.rs" % LOOP_FLAG_RECURSIVE)
+    return {"ops": ops, "pops": [(o[1], o[2]) for o in ops if o[0] == "pop"], "pop_after_push": after, "text": t}
+
+
+DEFAULT_RULE = None   # set by the check (set_rule); encode() refuses to guess
+
+
+def set_rule(rule):
+    global DEFAULT_RULE
+    DEFAULT_RULE = rule
+
+
+def ret_pops(stream, pc, rule):
+    """operands the VM pops at PopLoopFrame `pc` of `stream` when a recursion call returns there"""
+    prev = stream[pc - 1]["op"] if pc > 0 else None
+    return sum(n for cond, n in rule["pops"] if cond is None or cond == prev)
+
+
+def one(ins, const_b, rp=0):
+    """-> (tag, a, b).  const_b: True if this LoadConst(0) is typed as an empty bundle.  rp: ret_pops of a PopLoopFrame."""
     op = ins["op"]
     a = ins.get("arg")
     S = lambda p, q: (0, p, q)
@@ -27,14 +146,20 @@ def one(ins, const_b):
     if op in ("Not", "Neg", "IsUndefined"): return S(1, 1)
     if op == "CompareAndPreserve": return S(2, 2)
     if op in ("ApplyFilter", "PerformTest"): return (3, 0, 0) if a[1] is None else S(a[1], 1)
-    if op in ("CallFunction", "CallMethod"): return (3, 0, 0) if a[1] is None else S(a[1], 1)
+    if op == "CallFunction":
+        # whatever the name: the callee is looked up at run time and may be a loop object (vm/mod.rs, CallFunction
+        # arm: a `Loop` with exactly one argument starts a recursion) - except `super`, which is tested first
+        if a[0] != "super" and a[1] is None: return (20, 1, 0)
+        if a[0] != "super" and a[1] == 1: return (20, 0, 0)
+        return (3, 0, 0) if a[1] is None else S(a[1], 1)
+    if op == "CallMethod": return (3, 0, 0) if a[1] is None else S(a[1], 1)
     if op == "CallObject": return (3, 0, 0) if a is None else S(a, 1)
-    if op == "PushLoop": return (8, 0, 0)
+    if op == "PushLoop": return (8, 1 if a & LOOP_FLAG_RECURSIVE else 0, 0)
     if op == "PushWith": return (6, 0, 0)
     if op == "Iterate": return (10, a, 0)
     if op == "PushDidNotIterate": return (11, 0, 0)
     if op == "PopFrame": return (7, 0, 0)
-    if op == "PopLoopFrame": return (9, 0, 0)
+    if op == "PopLoopFrame": return (9, rp, 0)
     if op == "Jump": return (12, a, 0)
     if op == "JumpIfFalse": return (13, a, 0)
     if op in ("JumpIfFalseOrPop", "JumpIfTrueOrPop"): return (14, a, 0)
@@ -45,7 +170,7 @@ def one(ins, const_b):
     if op == "DupTop": return S(1, 2)
     if op == "DiscardTop": return S(1, 0)
     if op == "FastSuper": return S(0, 0)
-    if op == "FastRecurse": return S(1, 0)
+    if op == "FastRecurse": return (21, 0, 0)
     if op == "Swap": return (4, 0, 0)
     if op == "CallBlock": return S(0, 0)
     if op == "LoadBlocks": return S(1, 0)
@@ -73,19 +198,25 @@ def is_zero_const(ins):
     return ins["op"] == "LoadConst" and ins.get("arg") == 0 and not isinstance(ins.get("arg"), bool)
 
 
-def encode(stream, typing=None):
-    """-> integer list for the `c05` runner.  typing: set of indices of LoadConst(0) typed as bundles.
+def encode(stream, typing=None, rule=None):
+    """-> integer list for the `c05` runners.  typing: set of indices of LoadConst(0) typed as bundles.
     Default typing: for every PushLoop(0) (the accumulate loop of a filtered for - the only loop without
-    loop variable) the nearest preceding LoadConst(0) that is not already taken."""
+    loop variable) the nearest preceding LoadConst(0) that is not already taken.
+    rule: result of vm_return_rule (default: the one installed with set_rule, else read from MJ_REPO / /repo)."""
     if typing is None:
         typing = default_typing(stream)
+    if rule is None:
+        if DEFAULT_RULE is None:
+            set_rule(vm_return_rule(os.environ.get("MJ_REPO", "/repo")))
+        rule = DEFAULT_RULE
     ents = entries_of(stream)
     out = [len(ents)]
     for pc, n in ents:
         out += [pc, n]
     out.append(len(stream))
     for i, ins in enumerate(stream):
-        out += list(one(ins, i in typing))
+        rp = ret_pops(stream, i, rule) if ins["op"] == "PopLoopFrame" else 0
+        out += list(one(ins, i in typing, rp))
     return out
 
 
